@@ -26,7 +26,10 @@ RULE = ("(fft size in {2,4,6,7,8,12,16,32,64,128,256,1024,2048} incl. odd "
         "symbol body, the round trip, and the equalised symbols against the "
         "input using the response reported after the transmission.  Signature "
         "= (fft, cp class, used class, length class, memory class); "
-        "non-trivial = more than one subcarrier pair or a multi-tap channel.")
+        "non-trivial = more than one subcarrier pair or a multi-tap channel.  "
+        "Tap profiles include echoes 31-60 dB below the strongest tap; a third "
+        "of the round trips follow a refused set_parameters call; received "
+        "buffers are demodulated twice and their values compared before/after. ")
 ASSUMPTIONS = ["a time-invariant channel is a Jakes generator with zero Doppler",
                "cases with min|H| < 1e-6 max|H| over the used subcarriers are "
                "tallied as ill-conditioned (the equaliser divides by H)",
